@@ -539,16 +539,16 @@ package url
 //@   ensures (result1 == nil && old(allNonFatal(u))) ==> allNonFatal(u)   [C15 recorded-entries-on-a-parsed-url-are-non-fatal]
 //@   ensures result1 != nil ==> (isVE(result1) && errFailure(result1) && errType(result1) != "")   [C15 returned-errors-are-marked-as-failures]
 //@   ensures arr(u.validationErrors) == old(arr(u.validationErrors)) || fresh(u.validationErrors)
-//@   ensures (p.opts.preParseHostFunc == nil && input != "" && input[0] == '[' && result1 == nil) ==> (len(input) >= 2 && input[len(input) - 1] == ']')   [C08 single-bracket-pair]
+//@   ensures (p.opts.preParseHostFunc == nil && input != "" && input[0] == '[' && result1 == nil) ==> (len(input) >= 2 && input[len(input) - 1] == ']')   [C01,C08 single-bracket-pair]
 //@   ensures (p.opts.preParseHostFunc == nil && input != "" && input[0] == '[' && result1 == nil) ==>
-//@           (exists a intarr, c int, l int :: specIsCompressL(a, c, l) && result0 == "[" + specIPv6Acc(a, c, 0, false, "") + "]")   [C08 result-is-canonical-text]
+//@           (exists a intarr, c int, l int :: specIsCompressL(a, c, l) && result0 == "[" + specIPv6Acc(a, c, 0, false, "") + "]")   [C01,C08 result-is-canonical-text]
 //@   ensures (!isNotSpecial && p.opts.preParseHostFunc == nil && p.opts.postParseHostFunc == nil && !p.opts.laxHostParsing && input != "" && input[0] != '['
-//@            && result1 == nil && !specEndsInANumber(hostASCII(p, input))) ==> result0 == hostASCII(p, input)   [C09 decode-then-toascii-then-ipv4-test]
+//@            && result1 == nil && !specEndsInANumber(hostASCII(p, input))) ==> result0 == hostASCII(p, input)   [C01,C09 decode-then-toascii-then-ipv4-test]
 //@   ensures (!isNotSpecial && p.opts.preParseHostFunc == nil && p.opts.postParseHostFunc == nil && !p.opts.laxHostParsing && input != "" && input[0] != '['
-//@            && result1 == nil && !specEndsInANumber(hostASCII(p, input))) ==> (forall k int :: 0 <= k && k < len(result0) ==> !specForbiddenDomain(result0[k]))   [C09 no-forbidden-domain-code-point]
+//@            && result1 == nil && !specEndsInANumber(hostASCII(p, input))) ==> (forall k int :: 0 <= k && k < len(result0) ==> !specForbiddenDomain(result0[k]))   [C01,C09 no-forbidden-domain-code-point]
 //@   ensures (!isNotSpecial && p.opts.preParseHostFunc == nil && p.opts.postParseHostFunc == nil && !p.opts.laxHostParsing && p.opts.encodingOverride == nil && input != ""
-//@            && input[0] != '[' && result1 == nil && !specEndsInANumber(specHostASCII(input))) ==> result0 == specHostASCII(input)   [C09 domain-host-as-a-function-of-the-text]
-//@   ensures (isNotSpecial && p.opts.preParseHostFunc == nil && input != "" && input[0] != '[') ==> !u.isIPv4 || old(u.isIPv4)   [C07 non-special-hosts-never-reinterpreted]
+//@            && input[0] != '[' && result1 == nil && !specEndsInANumber(specHostASCII(input))) ==> result0 == specHostASCII(input)   [C01,C09 domain-host-as-a-function-of-the-text]
+//@   ensures (isNotSpecial && p.opts.preParseHostFunc == nil && input != "" && input[0] != '[') ==> !u.isIPv4 || old(u.isIPv4)   [C01,C07 non-special-hosts-never-reinterpreted]
 //@   loop 1 modifies u.validationErrors, u.validationErrors[..]
 //@   loop 1 invariant old(allNonFatal(u)) ==> allNonFatal(u)
 //@   loop 1 invariant arr(u.validationErrors) == old(arr(u.validationErrors)) || fresh(u.validationErrors)
@@ -1357,7 +1357,7 @@ package url
 //@   requires p != nil && u != nil
 //@   modifies u.validationErrors, u.validationErrors[..]
 //@   ensures old(allNonFatal(u)) ==> allNonFatal(u)   [C15]
-//@   ensures result == specEndsInANumber(input)   [C07]
+//@   ensures result == specEndsInANumber(input)   [C01,C07]
 //@   ensures u.validationErrors == old(u.validationErrors)   [C15]
 //@   ensures forall k int :: 0 <= k && k < len(u.validationErrors) ==> u.validationErrors[k] == old(u.validationErrors[k])   [C15]
 
@@ -1368,14 +1368,14 @@ package url
 //@   ensures arr(u.validationErrors) == old(arr(u.validationErrors)) || fresh(u.validationErrors)
 //@   ensures input != "" ==> u.validationErrors == old(u.validationErrors)   [C15]
 //@   ensures input != "" ==> (forall k int :: 0 <= k && k < len(u.validationErrors) ==> u.validationErrors[k] == old(u.validationErrors[k]))   [C15]
-//@   ensures !specNumSyntax(input) ==> (err != nil && !errIsRange(err))   [C07 no-sign-no-other-character]
-//@   ensures (specNumSyntax(input) && specNumBody(input) == "") ==> (err == nil && number == 0)   [C07]
-//@   ensures (specNumSyntax(input) && specNumBody(input) != "" && specParseIntFits(specNumBody(input), specNumRadix(input))) ==> err == nil   [C07]
+//@   ensures !specNumSyntax(input) ==> (err != nil && !errIsRange(err))   [C01,C07 no-sign-no-other-character]
+//@   ensures (specNumSyntax(input) && specNumBody(input) == "") ==> (err == nil && number == 0)   [C01,C07]
+//@   ensures (specNumSyntax(input) && specNumBody(input) != "" && specParseIntFits(specNumBody(input), specNumRadix(input))) ==> err == nil   [C01,C07]
 //@   ensures (specNumSyntax(input) && specNumBody(input) != "" && specParseIntFits(specNumBody(input), specNumRadix(input)))
-//@           ==> number == specParseIntVal(specNumBody(input), specNumRadix(input))   [C07]
-//@   ensures err == nil ==> number >= 0   [C07]
-//@   ensures (specNumSyntax(input) && specNumBody(input) != "" && !specParseIntFits(specNumBody(input), specNumRadix(input))) ==> errIsRange(err)   [C07]
-//@   ensures err == nil ==> validationError == (specNumStart(input) > 0)   [C07]
+//@           ==> number == specParseIntVal(specNumBody(input), specNumRadix(input))   [C01,C07]
+//@   ensures err == nil ==> number >= 0   [C01,C07]
+//@   ensures (specNumSyntax(input) && specNumBody(input) != "" && !specParseIntFits(specNumBody(input), specNumRadix(input))) ==> errIsRange(err)   [C01,C07]
+//@   ensures err == nil ==> validationError == (specNumStart(input) > 0)   [C01,C07]
 //@   loop 1 modifies nothing
 //@   loop 1 invariant 0 <= i && i <= len(input) && (R == 8 || R == 10 || R == 16) && len(input) >= 1 && input[0] != '+' && input[0] != '-'
 //@   loop 1 invariant forall k int :: (0 <= k && k < i) ==> specDigitVal(input[k]) < R
@@ -1387,9 +1387,9 @@ package url
 //@   ensures (result1 == nil && old(allNonFatal(u))) ==> allNonFatal(u)   [C15 recorded-entries-on-a-parsed-url-are-non-fatal]
 //@   ensures result1 != nil ==> (isVE(result1) && errFailure(result1) && errType(result1) != "")   [C15 returned-errors-are-marked-as-failures]
 //@   ensures arr(u.validationErrors) == old(arr(u.validationErrors)) || fresh(u.validationErrors)
-//@   ensures result1 == nil ==> (specPartsN(input) <= 4 && u.isIPv4)   [C07]
-//@   ensures result1 == nil ==> (forall k int :: 0 <= k && k < specPartsN(input) ==> specNumSyntax(specSplitPart(input, ".", k)))   [C07]
-//@   ensures result1 == nil ==> specIPv4RangeOK(input)   [C07]
+//@   ensures result1 == nil ==> (specPartsN(input) <= 4 && u.isIPv4)   [C01,C07]
+//@   ensures result1 == nil ==> (forall k int :: 0 <= k && k < specPartsN(input) ==> specNumSyntax(specSplitPart(input, ".", k)))   [C01,C07]
+//@   ensures result1 == nil ==> specIPv4RangeOK(input)   [C01,C07]
 //@   loop 1 modifies u.validationErrors, u.validationErrors[..]
 //@   loop 1 invariant old(allNonFatal(u)) ==> allNonFatal(u)
 //@   loop 1 invariant len(numbers) == $i && (numbers == nil || freshL(numbers)) && len(parts) == specPartsN(input) && len(parts) <= 4 && len(parts) >= 1
@@ -1406,11 +1406,11 @@ package url
 //@   loop 3 invariant arr(u.validationErrors) == old(arr(u.validationErrors)) || fresh(u.validationErrors)
 //@   loop 3 invariant arr(u.validationErrors) == pre(arr(u.validationErrors)) || freshL(u.validationErrors)
 //@   loop 3 invariant forall k int :: 0 <= k && k < $i ==> numbers[k] <= 255
-//@   ensures (result1 == nil && specPartsN(input) == 1) ==> result0 == specIPv4Ser(specPartVal(input, 0))   [C07 value-one-part]
-//@   ensures (result1 == nil && specPartsN(input) == 2) ==> result0 == specIPv4Ser(specPartVal(input, 1) + specPartVal(input, 0) * 16777216)   [C07 value-two-parts]
-//@   ensures (result1 == nil && specPartsN(input) == 3) ==> result0 == specIPv4Ser(specPartVal(input, 2) + specPartVal(input, 0) * 16777216 + specPartVal(input, 1) * 65536)   [C07 value-three-parts]
-//@   ensures (result1 == nil && specPartsN(input) == 4) ==> result0 == specIPv4Ser(specPartVal(input, 3) + specPartVal(input, 0) * 16777216 + specPartVal(input, 1) * 65536 + specPartVal(input, 2) * 256)   [C07 value-four-parts]
-//@   ensures result1 == nil ==> (1 <= specPartsN(input) && specPartsN(input) <= 4)   [C07]
+//@   ensures (result1 == nil && specPartsN(input) == 1) ==> result0 == specIPv4Ser(specPartVal(input, 0))   [C01,C07 value-one-part]
+//@   ensures (result1 == nil && specPartsN(input) == 2) ==> result0 == specIPv4Ser(specPartVal(input, 1) + specPartVal(input, 0) * 16777216)   [C01,C07 value-two-parts]
+//@   ensures (result1 == nil && specPartsN(input) == 3) ==> result0 == specIPv4Ser(specPartVal(input, 2) + specPartVal(input, 0) * 16777216 + specPartVal(input, 1) * 65536)   [C01,C07 value-three-parts]
+//@   ensures (result1 == nil && specPartsN(input) == 4) ==> result0 == specIPv4Ser(specPartVal(input, 3) + specPartVal(input, 0) * 16777216 + specPartVal(input, 1) * 65536 + specPartVal(input, 2) * 256)   [C01,C07 value-four-parts]
+//@   ensures result1 == nil ==> (1 <= specPartsN(input) && specPartsN(input) <= 4)   [C01,C07]
 //@   loop 4 unroll 3
 
 //@ func (*parser).parseIPv6
@@ -1419,26 +1419,26 @@ package url
 //@   ensures (result1 == nil && old(allNonFatal(u))) ==> allNonFatal(u)   [C15 recorded-entries-on-a-parsed-url-are-non-fatal]
 //@   ensures result1 != nil ==> (isVE(result1) && errFailure(result1) && errType(result1) != "")   [C15 returned-errors-are-marked-as-failures]
 //@   ensures arr(u.validationErrors) == old(arr(u.validationErrors)) || fresh(u.validationErrors)
-//@   ensures result1 == nil ==> u.isIPv6   [C08]
-//@   ensures result1 == nil ==> (exists a intarr, c int, l int :: specIsCompressL(a, c, l) && result0 == "[" + specIPv6Acc(a, c, 0, false, "") + "]")   [C08 result-is-canonical-text]
+//@   ensures result1 == nil ==> u.isIPv6   [C01,C08]
+//@   ensures result1 == nil ==> (exists a intarr, c int, l int :: specIsCompressL(a, c, l) && result0 == "[" + specIPv6Acc(a, c, 0, false, "") + "]")   [C01,C08 result-is-canonical-text]
 //@   loop 1 modifies u.validationErrors, u.validationErrors[..], input.pointer, input.eof, address[..]
 //@   loop 1 invariant old(allNonFatal(u)) ==> allNonFatal(u)
-//@   loop 1 invariant cur(input) && address != nil && fresh(address) && 0 <= pieceIdx && pieceIdx <= 8 && -1 <= compress && compress <= pieceIdx   [C08]
+//@   loop 1 invariant cur(input) && address != nil && fresh(address) && 0 <= pieceIdx && pieceIdx <= 8 && -1 <= compress && compress <= pieceIdx   [C01,C08]
 //@   loop 1 invariant input.pointer >= 0 && (input.eof || c == input.runes[input.pointer]) && (input.eof ==> c == 0xFFFD)
 //@   loop 1 invariant arr(u.validationErrors) == old(arr(u.validationErrors)) || fresh(u.validationErrors)
 //@   loop 1 invariant arr(u.validationErrors) == pre(arr(u.validationErrors)) || freshL(u.validationErrors)
-//@   loop 1 invariant forall j int :: (pieceIdx <= j && j < 8) ==> address[j] == 0   [C08 unparsed-pieces-are-zero]
+//@   loop 1 invariant forall j int :: (pieceIdx <= j && j < 8) ==> address[j] == 0   [C01,C08 unparsed-pieces-are-zero]
 //@   loop 1 step prev(c) == 0x3A ==> (pieceIdx == prev(pieceIdx) + 1 && compress == pieceIdx && prev(compress) < 0
-//@            && (forall j int :: (0 <= j && j < 8) ==> address[j] == prev(address[j])))   [C08 double-colon-marks-the-compression]
+//@            && (forall j int :: (0 <= j && j < 8) ==> address[j] == prev(address[j])))   [C01,C08 double-colon-marks-the-compression]
 //@   loop 1 step prev(c) != 0x3A ==> (pieceIdx == prev(pieceIdx) + 1 && compress == prev(compress) && 0 <= (input.pointer - prev(input.pointer) - (input.eof ? 0 : 1)) && (input.pointer - prev(input.pointer) - (input.eof ? 0 : 1)) <= 4
 //@            && address[prev(pieceIdx)] == specHexAcc(content(input.runes), prev(input.pointer), (input.pointer - prev(input.pointer) - (input.eof ? 0 : 1)))
-//@            && (forall j int :: (0 <= j && j < 8 && j != prev(pieceIdx)) ==> address[j] == prev(address[j])))   [C08 piece-is-the-value-of-its-hex-digits]
+//@            && (forall j int :: (0 <= j && j < 8 && j != prev(pieceIdx)) ==> address[j] == prev(address[j])))   [C01,C08 piece-is-the-value-of-its-hex-digits]
 //@   loop 1 decreases input.length - input.pointer
 //@   loop 2 modifies input.pointer, input.eof
 //@   loop 2 invariant cur(input) && 0 <= length && length <= 4 && 0 <= value && value < 65536 && (length == 0 ==> (value == 0 && !input.eof))
-//@   loop 2 invariant (length == 1 ==> value < 16) && (length == 2 ==> value < 256) && (length == 3 ==> value < 4096)   [C08 at-most-four-hex-digits]
+//@   loop 2 invariant (length == 1 ==> value < 16) && (length == 2 ==> value < 256) && (length == 3 ==> value < 4096)   [C01,C08 at-most-four-hex-digits]
 //@   loop 2 invariant input.pointer == pre(input.pointer) + length && input.pointer >= 0
-//@   loop 2 invariant off(input.runes) == 0 && value == specHexAcc(content(input.runes), pre(input.pointer), length)   [C08 piece-is-the-value-of-its-hex-digits]
+//@   loop 2 invariant off(input.runes) == 0 && value == specHexAcc(content(input.runes), pre(input.pointer), length)   [C01,C08 piece-is-the-value-of-its-hex-digits]
 //@   loop 2 invariant (input.eof || c == input.runes[input.pointer]) && (input.eof ==> c == 0xFFFD)
 //@   loop 2 decreases 4 - length
 //@   loop 3 modifies u.validationErrors, u.validationErrors[..], input.pointer, input.eof, address[..]
@@ -1448,38 +1448,38 @@ package url
 //@   loop 3 invariant input.pointer >= 0 && (input.eof || c == input.runes[input.pointer]) && (input.eof ==> c == 0xFFFD)
 //@   loop 3 invariant arr(u.validationErrors) == old(arr(u.validationErrors)) || fresh(u.validationErrors)
 //@   loop 3 invariant arr(u.validationErrors) == pre(arr(u.validationErrors)) || freshL(u.validationErrors)
-//@   loop 3 invariant forall j int :: (pieceIdx < j && j < 8) ==> address[j] == 0   [C08 unparsed-pieces-are-zero]
-//@   loop 3 invariant ((numbersSeen == 0 || numbersSeen == 2 || numbersSeen == 4) && pieceIdx < 8) ==> address[pieceIdx] == 0   [C08 unparsed-pieces-are-zero]
+//@   loop 3 invariant forall j int :: (pieceIdx < j && j < 8) ==> address[j] == 0   [C01,C08 unparsed-pieces-are-zero]
+//@   loop 3 invariant ((numbersSeen == 0 || numbersSeen == 2 || numbersSeen == 4) && pieceIdx < 8) ==> address[pieceIdx] == 0   [C01,C08 unparsed-pieces-are-zero]
 //@   loop 3 invariant ((numbersSeen == 1 || numbersSeen == 3) && pieceIdx < 8) ==> address[pieceIdx] <= 255
 //@   loop 3 step (numbersSeen == prev(numbersSeen) + 1 && 0 <= ipv4Piece && ipv4Piece <= 255 && pieceIdx == prev(pieceIdx) + (numbersSeen % 2 == 0 ? 1 : 0)
 //@            && address[prev(pieceIdx)] == (prev(numbersSeen) % 2 == 0 ? ipv4Piece : prev(address[prev(pieceIdx)]) * 256 + ipv4Piece)
-//@            && (forall j int :: (0 <= j && j < 8 && j != prev(pieceIdx)) ==> address[j] == prev(address[j])))   [C08 ipv4-tail-two-numbers-per-piece]
+//@            && (forall j int :: (0 <= j && j < 8 && j != prev(pieceIdx)) ==> address[j] == prev(address[j])))   [C01,C08 ipv4-tail-two-numbers-per-piece]
 //@   loop 3 decreases input.length - input.pointer
 //@   loop 4 modifies u.validationErrors, u.validationErrors[..], input.pointer, input.eof
 //@   loop 4 invariant old(allNonFatal(u)) ==> allNonFatal(u)
-//@   loop 4 invariant cur(input) && -1 <= ipv4Piece && ipv4Piece <= 255 && (ipv4Piece >= 0 || (specIsDigit(c) && !input.eof))   [C08]
+//@   loop 4 invariant cur(input) && -1 <= ipv4Piece && ipv4Piece <= 255 && (ipv4Piece >= 0 || (specIsDigit(c) && !input.eof))   [C01,C08]
 //@   loop 4 invariant input.pointer >= pre(input.pointer) && (ipv4Piece >= 0 ==> input.pointer > pre(input.pointer))
 //@   loop 4 invariant input.pointer >= 0 && (input.eof || c == input.runes[input.pointer]) && (input.eof ==> c == 0xFFFD)
 //@   loop 4 invariant arr(u.validationErrors) == old(arr(u.validationErrors)) || fresh(u.validationErrors)
 //@   loop 4 invariant arr(u.validationErrors) == pre(arr(u.validationErrors)) || freshL(u.validationErrors)
 //@   loop 4 invariant off(input.runes) == 0 && pre(input.pointer) >= 0 && (ipv4Piece < 0 ==> input.pointer == pre(input.pointer))
-//@   loop 4 invariant ipv4Piece >= 0 ==> ipv4Piece == specDecAcc(content(input.runes), pre(input.pointer), input.pointer - pre(input.pointer))   [C08 ipv4-tail-number-is-decimal]
+//@   loop 4 invariant ipv4Piece >= 0 ==> ipv4Piece == specDecAcc(content(input.runes), pre(input.pointer), input.pointer - pre(input.pointer))   [C01,C08 ipv4-tail-number-is-decimal]
 //@   loop 4 decreases input.length - input.pointer
 //@   loop 5 modifies address[..]
 //@   loop 5 invariant address != nil && fresh(address) && 0 <= pieceIdx && pieceIdx <= 7 && 0 <= swaps && 0 <= compress && compress + swaps <= 8 && swaps <= pieceIdx + 1
 //@   loop 5 invariant pieceIdx == 7 - (pre(swaps) - swaps) && compress + swaps <= pieceIdx + 1 && compress == pre(compress)
-//@   loop 5 invariant forall j int :: (0 <= j && j < compress + swaps) ==> address[j] == pre(address[j])   [C08 pieces-before-compression-stay]
-//@   loop 5 invariant forall j int :: (pieceIdx < j && j <= 7) ==> address[j] == pre(address[compress + j - 8 + swaps])   [C08 pieces-after-compression-move-to-the-end]
-//@   loop 5 invariant forall j int :: (compress + swaps <= j && j <= pieceIdx) ==> address[j] == 0   [C08 compression-is-zero-filled]
+//@   loop 5 invariant forall j int :: (0 <= j && j < compress + swaps) ==> address[j] == pre(address[j])   [C01,C08 pieces-before-compression-stay]
+//@   loop 5 invariant forall j int :: (pieceIdx < j && j <= 7) ==> address[j] == pre(address[compress + j - 8 + swaps])   [C01,C08 pieces-after-compression-move-to-the-end]
+//@   loop 5 invariant forall j int :: (compress + swaps <= j && j <= pieceIdx) ==> address[j] == 0   [C01,C08 compression-is-zero-filled]
 //@   loop 5 decreases swaps
 
 //@ func (*IPv6Addr).String
 //@   requires address != nil
-//@   ensures exists c int, l int :: specIsCompressL(*address, c, l) && result == specIPv6Acc(*address, c, 0, false, "")   [C08 canonical-serialization]
+//@   ensures exists c int, l int :: specIsCompressL(*address, c, l) && result == specIPv6Acc(*address, c, 0, false, "")   [C01,C08 canonical-serialization]
 //@   loop 1 unroll 8
 //@   loop 1 exit-assert specIsCompressL(*address, (currentLength > 1 && currentLength > compressLength) ? currentIdx : compress,
-//@            (currentLength > 1 && currentLength > compressLength) ? currentLength : compressLength)   [C08 first-longest-run]
+//@            (currentLength > 1 && currentLength > compressLength) ? currentLength : compressLength)   [C01,C08 first-longest-run]
 //@   loop 2 unroll 8
 
 //@ func (IPv4Addr).String
-//@   ensures result == specIPv4Ser(address)   [C07]
+//@   ensures result == specIPv4Ser(address)   [C01,C07]
